@@ -42,22 +42,22 @@ package ast
 //@   | ite(typeis(s, ast.SyntaxStringLit), string(as(s, ast.SyntaxStringLit)), string(as(s, ast.SyntaxTokId))))))
 //@ spec isSym(s ast.SyntaxSymbol) bool = typeis(s, ast.SyntaxEmpty) || typeis(s, ast.SyntaxError) || typeis(s, ast.SyntaxProdId) || typeis(s, ast.SyntaxStringLit) || typeis(s, ast.SyntaxTokId)
 //@ func (SyntaxEmpty).SymbolString
-//@   prop C02
+//@   prop C02 C04 C06
 //@   ensures [fun] result == SymStr(iface(this))
 //@   assigns nothing
 //@ func (SyntaxError).SymbolString
-//@   prop C02
+//@   prop C02 C04 C06
 //@   ensures [fun] result == SymStr(iface(this))
 //@   assigns nothing
 //@ func (SyntaxProdId).SymbolString
-//@   prop C02
+//@   prop C02 C04 C06
 //@   ensures [fun] result == SymStr(iface(this))
 //@   assigns nothing
 //@ func (SyntaxStringLit).SymbolString
-//@   prop C02
+//@   prop C02 C04 C06
 //@   ensures [fun] result == SymStr(iface(this))
 //@   assigns nothing
 //@ func (SyntaxTokId).SymbolString
-//@   prop C02
+//@   prop C02 C04 C06
 //@   ensures [fun] result == SymStr(iface(this))
 //@   assigns nothing
